@@ -187,6 +187,19 @@ CHECKS = {
         note="tomlkit dump/load is trusted as the identity on the TOML tree; numeric tables (binding energies, yields) and modifier "
              "syntax are compared by the oracle, not by the theorems; a project exported from a network with a replacement table "
              "cannot be re-rendered (refused with an error - the API has no replacement argument)."),
+    "C11": dict(
+        text="Theorems grain_parses (every implemented (dust model, type) pair emits, for every sign class of alpha and every kind "
+             "of reactant, text that parses as C after _beautify), dispatch_table (exactly which pairs are implemented; all others "
+             "refuse), law_trees_match + hh93_depletion_law, nu0_law, hh93_thermal_law, rr07_depletion_law, rr07x_thermal_law over "
+             "the reals (accretion, characteristic frequency, thermal desorption, UCLCHEM freeze-out incl. ion / electron cases), "
+             "using the species' own mass number and binding-energy symbol. Tie: real grain reactions of the Leeds / UCLCHEM / "
+             "native classes with all five grain classes: emitted text compared character by character with the model and "
+             "evaluated against separately written physical formulas with thresholds placed around the species' binding energy; "
+             "emitted eb_ constants and yields compared with an own reading of the data table and the user overrides.",
+        design="4/C11", technique="Lean 4 proof (decide +kernel over templates; real-analysis identities) + character-level differential check",
+        note="Law theorems cover 5 of the 15 templates (the others are checked for parse-ability, by correspondence and by the "
+             "numeric oracle only). The reference formulas are transcribed from memory of HH93 / RR07 / UCLCHEM v1.3: an error "
+             "common to naunet and the transcription is not detectable."),
 }
 
 NOT_YET = {}
